@@ -84,6 +84,10 @@ def topology_grid(ux, spec):
     kw = {}
     if spec.get("face_lon") is not None:
         kw = dict(face_lon=np.asarray(spec["face_lon"], float), face_lat=np.asarray(spec["face_lat"], float))
+    if spec.get("edge_nodes") is not None:
+        # the source supplies its own edge tables (own edge numbering, either order of the two faces)
+        kw["edge_node_connectivity"] = np.asarray(spec["edge_nodes"], dtype=np.int64).reshape(-1, 2).copy()
+        kw["edge_face_connectivity"] = np.asarray(spec["edge_faces"], dtype=np.int64).reshape(-1, 2).copy()
     return ux.Grid.from_topology(
         node_lon=np.asarray(spec["node_lon"], float), node_lat=np.asarray(spec["node_lat"], float),
         face_node_connectivity=m.table().copy(), fill_value=INT_FILL, **kw)
@@ -242,6 +246,16 @@ def observe(ctx, g, src):
         ctx.notes.append(f"{src.get('tag')}: edge tables index out of range (C02/C03's subject): not judged")
         return None
     o.interior = o.ef[:, 1] != INT_FILL
+    mesh = src.get("mesh")
+    if isinstance(mesh, dict) and mesh.get("edge_faces") is not None:
+        sup_ef = np.asarray(src["mesh"]["edge_faces"], dtype=np.int64).reshape(-1, 2)
+        sup_en = np.asarray(src["mesh"]["edge_nodes"], dtype=np.int64).reshape(-1, 2)
+        ctx.hit("edge-tables:source-supplied")
+        if o.ef.shape != sup_ef.shape or (o.ef != sup_ef).any() or (o.en != sup_en).any():
+            # the grid reports other tables than the source supplied (C08's subject); C16 judges what is reported
+            ctx.hit("edge-tables:supplied-but-replaced-by-the-grid")
+        ctx.hit("edges:interior-with-faces-descending", int((o.interior & (o.ef[:, 0] > o.ef[:, 1])).sum()))
+        ctx.hit("edges:interior-with-face0-second", int((o.interior & (o.ef[:, 1] == 0)).sum()))
     return o
 
 
@@ -321,12 +335,16 @@ def judge_distances(ctx, g, o, src, inp0):
             asis = np.array(common.Tok(d.ask("C16.model.face.asis", enc_floats(fl(o.node_lon)), enc_floats(fl(o.node_lat)), o.enc_ef)).floats())
             inr = o.interior & (o.ef[:, 0] < o.n_node) & (o.ef[:, 1] < o.n_node)
             same = len(df) == len(asis) and inr.any() and np.allclose(np.asarray(df, float)[inr], asis[inr], rtol=0, atol=1e-6)
-            sig = "C16/edge_face_distances/indexes-node-coords" if (same and "is_geodesic" in out[1]) else "C16/edge_face_distances/" + sig_clean(out[1])
+            left_zero = e < len(df) and e < len(o.ef) and bool(o.interior[e]) and float(df[e]) == 0.0
+            sig = ("C16/edge_face_distances/indexes-node-coords" if (same and "is_geodesic" in out[1])
+                   else "C16/edge_face_distances/two-face-edge-left-zero" if left_zero
+                   else "C16/edge_face_distances/" + sig_clean(out[1]))
             ctx.hit("diagnosis:" + ("as-is node-indexed" if same else "other"))
             ctx.fail(sig,
                      (f"edge_face_distances[{e}]={fl(df)[e] if e < len(df) else None} is not the arc between the centres of faces "
                       f"{o.ef[e].tolist() if e < len(o.ef) else None} (oracle {oracle[e] if e < len(oracle) else None})"
-                      + ("; it equals the arc between NODES with those numbers (node_lon/node_lat indexed by face indices)" if same else "")),
+                      + ("; it equals the arc between NODES with those numbers (node_lon/node_lat indexed by face indices)" if same else "")
+                      + ("; a two-face edge was treated as a boundary edge" if left_zero and not same else "")),
                      dict(inp0, op="edge_face_distances"), dict(edge_face_distances=fl(df)),
                      dict(oracle=oracle, asis_model=[None if x != x else x for x in asis.tolist()]), out[1].split(","))
     return df
@@ -510,6 +528,39 @@ def topo_src(m, rng, supply_centres):
     return dict(source="topology", tag=m.kind + ("+centres" if supply_centres else ""), mesh=spec)
 
 
+def edges_src(m, rng, supply_centres):
+    """the same kind of grid, but the SOURCE supplies edge_node_connectivity and
+    edge_face_connectivity: edges in its own (shuffled) order, end nodes in either order, the two
+    faces of an interior edge in either order — face 0 always listed second where it occurs —
+    boundary edges as [face, FILL]; no distances supplied."""
+    src = topo_src(m, rng, supply_centres)
+    cells = {}
+    for c, f in enumerate(m.faces):
+        for j in range(len(f)):
+            cells.setdefault(frozenset((f[j], f[(j + 1) % len(f)])), []).append(c)
+    keys = sorted(cells, key=lambda k: sorted(k))
+    rng.shuffle(keys)
+    en, ef = [], []
+    for k in keys:
+        a, b = sorted(k)
+        if rng.random() < 0.5:
+            a, b = b, a
+        en.append([a, b])
+        cs = sorted(cells[k])
+        if len(cs) == 1:
+            ef.append([cs[0], INT_FILL])
+        elif len(cs) == 2:
+            if cs[0] == 0 or rng.random() < 0.5:
+                cs = cs[::-1]
+            ef.append(cs)
+        else:
+            return None  # non-manifold edge: not a C16 input
+    src["mesh"]["edge_nodes"] = en
+    src["mesh"]["edge_faces"] = ef
+    src["tag"] = src["tag"] + "+supplied-edges"
+    return src
+
+
 def regular_closed(rng):
     """closed meshes whose nodes all have the same valence (so that the MPAS dual is well formed)"""
     return [meshes.dual_of(meshes.hull(rng.choice([9, 12, 16, 20]), rng)), meshes.prism(rng.choice([3, 4, 5, 6])),
@@ -519,7 +570,8 @@ def regular_closed(rng):
 def run(ctx):
     rng = ctx.rng
     ctx.rule = ("grids: 5 tiny + harness/meshes.zoo (closed and partial, triangulations with n_face>n_node, duals/patches with "
-                "n_face<n_node, all-boundary grids), built by Grid.from_topology with and without supplied face centres; synthetic MPAS "
+                "n_face<n_node, all-boundary grids), built by Grid.from_topology with and without supplied face centres, and again with SOURCE-SUPPLIED edge_node/edge_face "
+                "connectivity (own edge order, the two faces of an edge in either order, face 0 listed second, no distances); synthetic MPAS "
                 "files (own edge numbering, dvEdge/dcEdge supplied) read as primal and as dual mesh; the MPAS sample file. Per grid: both "
                 "distance tables, difference of face and of node data, gradient with/without normalisation on float/int/constant data of "
                 "rank 1..4. distinct = distinct (grid tables, op, shape, data); non-trivial = grid has a two-face edge and data not constant")
@@ -542,6 +594,16 @@ def run(ctx):
         ms += [meshes.cube_sphere(6), meshes.hull(150, rng), meshes.dual_of(meshes.hull(120, rng))]
     for i, m in enumerate(ms):
         judge(ctx, topo_src(m, rng, supply_centres=(i % 2 == 1)))
+    # source-supplied edge tables (own edge order, faces of an edge in either order), no distances
+    es = tiny() + meshes.zoo(rng, big=False)
+    for rep_ in range(ctx.n(0, 4)):
+        es += meshes.zoo(rng, big=False)
+    for i, m in enumerate(es):
+        if rng.random() < 0.5:
+            m = m.renumber(rng)  # which face is face 0 varies
+        src = edges_src(m, rng, supply_centres=(i % 3 == 2))
+        if src is not None:
+            judge(ctx, src)
     # source-supplied distances
     prim = [meshes.patch(2, 2), meshes.fan(5), meshes.cube_sphere(2).drop_faces(rng, 0.3)] + (regular_closed(rng) + (regular_closed(rng) if ctx.thorough else []))[: ctx.n(3, 12)]
     for m in prim:
